@@ -108,16 +108,25 @@ func (c *clusterT) newConfig(fixedPort int) *config.Config {
 	eng.Config = map[string]interface{}{"tableSize": uint64(optInt(o, "tsize", 1<<20))}
 	cfg.DMaps.Engine = eng
 	if name, ok := o["cdm"]; ok {
-		// a DMap with its own configuration: everything as above except the idle window
-		cfg.DMaps.Custom = map[string]config.DMap{name: {
+		// a DMap with its own configuration: each setting as above unless a c<setting> option is given
+		pick := func(k string, d int) int {
+			if _, ok := o[k]; ok {
+				return optInt(o, k, 0)
+			}
+			return d
+		}
+		custom := config.DMap{
 			Engine:          eng,
-			MaxIdleDuration: time.Duration(optInt(o, "cidle_ms", 0)) * time.Millisecond,
-			TTLDuration:     cfg.DMaps.TTLDuration,
-			MaxKeys:         cfg.DMaps.MaxKeys,
-			MaxInuse:        cfg.DMaps.MaxInuse,
-			LRUSamples:      cfg.DMaps.LRUSamples,
-			EvictionPolicy:  cfg.DMaps.EvictionPolicy,
-		}}
+			MaxIdleDuration: time.Duration(pick("cidle_ms", 0)) * time.Millisecond,
+			TTLDuration:     time.Duration(pick("cttl_ms", optInt(o, "ttl_ms", 0))) * time.Millisecond,
+			MaxKeys:         pick("cmaxkeys", optInt(o, "maxkeys", 0)),
+			MaxInuse:        pick("cmaxinuse", optInt(o, "maxinuse", 0)),
+			LRUSamples:      pick("clrusamples", optInt(o, "lrusamples", 0)),
+		}
+		if pick("clru", optInt(o, "lru", 0)) == 1 {
+			custom.EvictionPolicy = config.LRUEviction
+		}
+		cfg.DMaps.Custom = map[string]config.DMap{name: custom}
 	}
 	return cfg
 }
